@@ -313,7 +313,8 @@ theorem pin_taproot_consts :
 
 theorem pin_tagTapSighash :
     Generated.C07.tagTapSighash = Spec.tapSighashTag.map (fun x => (x.toNat : Int)) ∧
-    Model.tapSighashTag = Spec.tapSighashTag := by decide
+    Model.tapSighashTag = Spec.tapSighashTag ∧
+    Generated.C07.tagTapLeaf = Spec.tapLeafTag.map (fun x => (x.toNat : Int)) := by decide
 
 /-- the hash types `calcTaprootSignatureHashRaw` accepts, over the whole byte range -/
 theorem pin_validTaprootSigHashes :
